@@ -39,7 +39,10 @@ STRINGS_CONT = ['"a\\\nb"', "'a\\\r\nb'", '"x\\\ry"', '"p\\\u2028q"', "'\\\n'",
                 '"a\x0cb\\\nc\x0bd"', "'\x1cx\\\r\ny\x85z\\\nw'"]
 REGEXES = ['/a/', '/a/g', '/ab+c/gi', '/[/]/', '/[a-z]/i', '/\\//', '/a\\/b/m', '/[\\]]/', '/(?:a|b)*/',
            '/^$/', '/\\d+/g', '/[^/]/', '/=/', '/=a/', '/ /', '/a b/', '/\\s/', '/[/\\]/]/', '/"/', "/'/",
-           '/a/gim', '/{/', '/}/', '/(/ ', '/[(]/', '/\U0001F600+/', '/[\U00010000-\U0001F600]/g']
+           '/a/gim', '/{/', '/}/', '/(/ ', '/[(]/', '/\U0001F600+/', '/[\U00010000-\U0001F600]/g',
+           '/[]/', '/[^]/', '/[]]/', '/[^]a]/g',
+           # flags are any run of identifier characters (their validity is an early error, not grammar)
+           '/a/x', '/a/G', '/a/g2', '/re/gx', '/a/gg', '/a/y', '/a/su', '/a/abcXYZ019']
 REGEXES = [r.strip() if r != '/ /' else r for r in REGEXES if r.strip() != '/(/']
 
 BINOPS = [('||', 1), ('&&', 2), ('|', 3), ('^', 4), ('&', 5), ('==', 6), ('!=', 6), ('===', 6), ('!==', 6),
